@@ -1601,6 +1601,7 @@ pub const ILL_FORMED: [&str; 55] = [
 ];
 
 pub const ILL_FORMED_MUTANTS: &str = include_str!("../data/ill_formed_mutants.txt");
+pub const WELL_FORMED_MUTANTS: &str = include_str!("../data/well_formed_mutants.txt");
 
 pub fn unescape_line(line: &str) -> String {
     let mut out = String::new();
